@@ -22,6 +22,18 @@ What one run does
      delivered sequence must equal `expect`; the drain must terminate.  Exact agreement with
      the model's per-poll result is measured and put into the evidence (`exact_conformance`).
 
+Datagram boundaries: the model's `expect` is per datagram ([idx, off, len] = identity, start and length of
+each datagram) and the harness cuts every returned slot at `meta.stride` and identifies each piece by its
+position-tagged bytes, so a merged / fragmented / mis-strided datagram is a `not_prefix` violation and two
+datagrams dropped together a `starved` one.  (An independently written change to
+`Datagrams::take_segments` - remainder rule `rest / seg <= 1` - was first missed: not by the judge but by the
+generator bounds; no quick alphabet contained a batch whose remainder after a take is one full segment plus a
+shorter tail.  The alphabets now contain len 7 / seg 2 / buf 4 and len 7 / seg 3 / buf 3, `tail_split` guards
+that, and the spec has the what-if `ExactTail = FALSE`, refuted by `BoundariesKept`.  Verified with bin/seedtest on
+scratch worktrees: seeded/_incoming/C17/patch2.diff -> VIOLATION kind not_prefix ("delivered datagram #3 is (1, 4, 3),
+the property requires (1, 4, 2)"), seeded/_incoming/C17/patch.diff (whole batch dropped when its segment size exceeds
+the buffer) -> VIOLATION kind starved; unchanged /repo -> exit 0.)
+
 Genuine defects found on the pinned tree (known_findings.d/C17.json, proposed_fixes/C17.diff):
   (i)  a batch whose segment_size exceeds the receive buffer makes every poll return
        zero-length datagrams for ever (later datagrams starved);
@@ -80,14 +92,20 @@ def run(ctx):
                              "SlotDrop", "PollEnd"])
     # 2. the loop as written is refuted on both counts
     small = consts("{1,3,4,7}", "{0,2,5}", 2, "{2,4}", "{1,2}")
-    for cfg, inv in (("RelayRecv_aswritten_zero.cfg", "OutIsPrefixOfExpected"), ("RelayRecv_aswritten_wedge.cfg", "QuiescentMeansDrained")):
+    for cfg, inv in (("RelayRecv_aswritten_zero.cfg", "OutIsPrefixOfExpected"), ("RelayRecv_aswritten_wedge.cfg", "QuiescentMeansDrained"),
+                     ("RelayRecv_loosetail.cfg", "BoundariesKept")):
         ctx.tlc("socket", "RelayRecv", cfg=cfg, mode="mc", workers=2, coverage=False, constants=small, expect_violation=inv)
     # 3. behaviours
+    # Every generator alphabet must contain a batch with a non-dividing tail that is split over >= 2 slots / polls such
+    # that the remainder is one full segment + a shorter tail (seg < rest < 2 seg): len 7 / seg 2 with 4-unit buffers
+    # (rest 3: fits -> would be handed out merged) and len 7 / seg 3 with 3-unit buffers (rest 4: would be dropped whole).
     gens = ctx.pick(
-        [consts("{1,3,9}", "{0,2,5}", 2, "{4}", "{1,2}", MayClose="TRUE", MaxSteps=4),
-         consts("{2,5}", "{0,3}", 3, "{2,4}", "{2}", MayClose="TRUE", MaxSteps=5)],
-        [consts("{1,3,9}", "{0,2,5}", 3, "{2,4,6}", "{1,2}", MayClose="TRUE", MaxSteps=6),      # ~1e5 behaviours
-         consts("{2,5}", "{0,3}", 3, "{2,4}", "{1,2}", MayClose="TRUE", MaxSteps=7)])
+        [consts("{1,3,7}", "{0,2,5}", 2, "{4}", "{1,2}", MayClose="TRUE", MaxSteps=4),
+         consts("{2,7}", "{0,3}", 3, "{2,3}", "{2}", MayClose="TRUE", MaxSteps=5)],
+        [consts("{1,3,7,9}", "{0,2,5}", 3, "{2,4,6}", "{1,2}", MayClose="TRUE", MaxSteps=6),      # ~1e5 behaviours
+         consts("{2,5,7}", "{0,3}", 3, "{2,3,4}", "{1,2}", MayClose="TRUE", MaxSteps=7)])
+    for g in gens:
+        tail_split(g)
     scales = ctx.pick([1, 200], [1, 4, 200, 8188])
     cases = []
     for g in gens:
@@ -109,6 +127,21 @@ def run(ctx):
     ctx.cov["exhaustive"] = True
     ctx.assume("tokio mpsc: poll_recv registers the waker only when it returns Pending and a send wakes it (spec variable `waker`)")
     ctx.assume("noq's endpoint driver polls the socket again after Ready and after a wake-up, and only then")
+
+
+def tail_split(g):
+    """Guards the generator bounds: some (len, seg, buflen) must leave `one full segment + shorter tail` after a take."""
+    ints = lambda t: [int(x) for x in t.strip("{}").split(",")]
+    for l in ints(g["Lens"]):
+        for sg in ints(g["Segs"]):
+            for b in ints(g["BufLens"]):
+                if sg and sg <= b:
+                    rest = l
+                    while rest > sg:
+                        rest -= min((b // sg) * sg, rest)
+                        if sg < rest < 2 * sg:
+                            return
+    raise ToolError("generator constants %s contain no batch whose remainder is one full segment + tail" % g)
 
 
 def execute(ctx, cases, tag):
